@@ -23,12 +23,30 @@ SITE = "FilReader.read_plan"
 DEPTH_CH = {1: [8, 16], 2: [4, 8], 4: [2, 4], 8: [1, 2, 3], 16: [1, 2], 32: [1, 2]}
 
 
+_PLAN_COUNTER = [0]
+
+
 def record_plan(fil, gulp, start, nsamps, skip, maxblocks=10000):
-    """Run read_plan and turn it into trace events."""
+    """Run read_plan and turn it into trace events.  A plan is a lazy iterator: every third plan is CREATED, then the reader is
+    used for something else (a read_block elsewhere in the file), and only then iterated - what the plan delivers must not depend
+    on where the shared file handle was left in between."""
     ev = []
     ny = 0
+    _PLAN_COUNTER[0] += 1
     try:
-        for n, ii, data in fil.read_plan(gulp=gulp, start=start, nsamps=nsamps, skipback=skip, quiet=True):
+        plan = fil.read_plan(gulp=gulp, start=start, nsamps=nsamps, skipback=skip, quiet=True)
+        if _PLAN_COUNTER[0] % 3 == 0:
+            try:
+                n_all = int(fil.header.nsamples)
+                fil.read_block((start + nsamps // 2 + 1) % max(n_all, 1), 1)
+            except Exception:  # noqa: BLE001  (the disturbance itself is not under test here)
+                pass
+        import time as _time
+        t_start = _time.time()
+        for n, ii, data in plan:
+            if _time.time() - t_start > 60:
+                ev.append({"e": "fail", "exc": "DidNotTerminate", "after": ny})
+                return ev
             a = np.asarray(data)
             if a.dtype.kind == "f" and not np.all(a == np.round(a)):
                 vals = [-1]
